@@ -46,6 +46,8 @@ def i1_next_fold_agree(prog):
                         refs.add((x['fn'].get('res') or x['fn']).get('dp') or x['fn']['dp'])
                     if x.get('k') in ('call', 'tailcall') and isinstance(x.get('f'), dict) and x['f'].get('dp'):
                         refs.add((x['f'].get('res') or x['f']).get('dp'))
+                    if x.get('agg') == 'closure' and x.get('dp') in prog.fns:
+                        todo.append(prog.fns[x['dp']])      # closures of a helper spliced into this body keep the helper's path
                     for v in x.values():
                         walk(v)
                 elif isinstance(x, list):
@@ -76,27 +78,59 @@ def i1_next_fold_agree(prog):
         r.viol('I1', 'fold/filter-differs', fd.loc(), 'Iter::fold selects archetypes with a different filter instance than Iter::next (%s vs %s)' % (sorted(ff), sorted(fn_)))
     if vn != vf:
         r.viol('I1', 'fold/view-differs', fd.loc(), 'Iter::fold views archetypes with a different view instance than Iter::next')
-    # fold drains current_results_iter
+    # fold drains current_results_iter, then every remaining archetype — decided on the paths of fold
     adt = prog.adts.get('query::result::iter::Iter')
     names = [x['name'] for x in adt['variants'][0]['fields']]
     ci = names.index('current_results_iter')
-    body = fd.body
-    drained = False
-    for b, t in body.calls(lambda c: c['path'] == 'core::iter::Iterator::fold' or (c.get('trait') == 'core::iter::Iterator' and c['name'] in ('fold', 'for_each', 'try_fold'))):
-        recv = op_place(t['args'][0])
-        if recv is None:
+    ai = names.index('archetypes_iter')
+    from . import pathsem
+    S = pathsem.strip_refs
+    E = pathsem.analyse(prog, fd, max_paths=20000)
+    me = ('p', 1, fd.body.local_name(1) or 'self')
+    FOLDS = ('fold', 'for_each', 'try_fold', 'try_for_each')
+
+    def of_field(t, k):
+        t = S(t)
+        return pathsem.is_field_of(t, 'query::result::iter::Iter', k) and S(t[1]) in (me, ('d', me))
+    cur_payload = lambda t: isinstance(S(t), tuple) and S(t)[0] == 'f' and isinstance(S(t)[1], tuple) and S(t)[1][0] == 'down' and S(t)[1][2] == 'Some' and of_field(S(t)[1][1], ci)
+    dropped = unfolded = early = None
+    if E.truncated or not [p for p in E.paths if p.ended == 'return']:
+        dropped = 'Iter::fold not analysable'
+    for p in E.paths:
+        if p.ended not in ('return', 'cutoff'):
             continue
-        a = normalize_access(access_of_place(body, recv))
-        fl = [s[1] for s in a.steps if isinstance(s, tuple) and s[0] == 'f']
-        if a.root == 1 and fl and fl[0] == ci:
-            drained = True
-            # on the Some path it must not be skippable: the block is reached whenever the discriminant says Some
-    if not drained:
-        r.viol('I1', 'fold/current-results-dropped', fd.loc(),
-               'Iter::fold does not fold the partially consumed per-archetype iterator (current_results_iter): entities of the archetype that next() was in the middle of are skipped')
-    # fold over the remaining archetypes
-    if not any(True for b, t in body.calls(lambda c: c.get('trait') == 'core::iter::Iterator' and c['name'] in ('fold', 'for_each', 'try_fold')) if ty_mentions(body.place_ty(op_place(t['args'][0])) or {}, lambda n: is_adt(n, 'archetypes::iter::IterMut') or (n.get('k') == 'adt' and n['path'].endswith('IterMut')))):
-        r.viol('I1', 'fold/archetypes-not-folded', fd.loc(), 'Iter::fold does not fold over the remaining archetypes')
+        folds = p.calls(lambda e: e['name'] in FOLDS and (e['f'].get('trait') or '').endswith('Iterator') or e['name'] in FOLDS and e['path'].startswith('core::iter'))
+        views = p.calls(lambda e: e['name'] == 'view' and e['path'].startswith('archetype::Archetype'))
+        cur_some = any(isinstance(a_, tuple) and a_[0] == 'discr' and of_field(a_[1], ci) and v == 1 for a_, v in p.conds)
+        cur_seen = any(isinstance(a_, tuple) and a_[0] == 'discr' and of_field(a_[1], ci) for a_, v in p.conds)
+        if not cur_seen and p.ended == 'return':
+            dropped = dropped or 'Iter::fold never looks at the partially consumed per-archetype iterator it was handed (current_results_iter): entities of the archetype that next() was in the middle of are skipped'
+        if cur_some:
+            dr = [e for e in folds if cur_payload(e['vals'][0])]
+            first_other = min([e['i'] for e in views] + [e['i'] for e in p.calls(lambda e: e['name'] in ('find', 'next', 'find_map') and e['vals'] and of_field(e['vals'][0], ai))] or [1 << 30])
+            if not dr and (p.ended == 'return' or views):
+                dropped = dropped or 'Iter::fold does not fold the partially consumed per-archetype iterator (current_results_iter): entities of the archetype that next() was in the middle of are skipped'
+            elif dr and dr[0]['i'] > first_other:
+                dropped = dropped or 'Iter::fold moves on to the next archetype before it has folded the partially consumed per-archetype iterator (current_results_iter): the rest of that archetype is skipped'
+        for v_ in views:
+            later = [e for e in p.events if e['i'] > v_['i']]
+            if not any(pathsem.mentions(e['vals'][0], lambda t: t == v_['ret']) for e in folds if e['i'] > v_['i']):
+                # the path may have been cut off right after the view
+                if p.ended == 'return' or any(w['i'] > v_['i'] for w in views):
+                    unfolded = unfolded or 'Iter::fold views an archetype without folding its rows'
+        if p.ended == 'return':
+            whole = any(of_field(e['vals'][0], ai) for e in folds)
+            done_ = [v for a_, v in p.conds if isinstance(a_, tuple) and a_[0] in ('nonempty', 'exhausted', 'next') and of_field(pathsem.iter_chain(a_[1])[0], ai)]
+            ended = whole or any((a_[0] == 'exhausted' and v is True) or (a_[0] == 'next' and v == 0) for a_, v in p.conds if isinstance(a_, tuple) and a_[0] in ('exhausted', 'next') and of_field(pathsem.iter_chain(a_[1])[0], ai)) or \
+                (done_ and done_[-1] is False)
+            if not ended:
+                early = early or 'Iter::fold does not fold over the remaining archetypes'
+    if dropped:
+        r.viol('I1', 'fold/current-results-dropped', fd.loc(), dropped)
+    if unfolded:
+        r.viol('I1', 'fold/archetype-rows-not-folded', fd.loc(), unfolded)
+    if early:
+        r.viol('I1', 'fold/archetypes-not-folded', fd.loc(), early)
     return r
 
 
@@ -664,10 +698,22 @@ def i3_result_selection(prog):
     component."""
     r = Result()
     OWNERS = ('query::result::iter::Iter', 'query::result::par_iter::ParIter', 'query::result::par_iter::ResultsFolder', 'query::result::par_iter::ResultsConsumer')
-    for f in prog.fns.values():
+    def users_of(dp):
+        # functions whose body builds the closure `dp` (a closure of a helper spliced into its callers has lost its parent)
+        out = []
+        for g in prog.fns.values():
+            if any(s_['k'] == 'assign' and s_['rv'].get('agg') == 'closure' and s_['rv'].get('dp') == dp for _, _, s_ in g.body.stmts()):
+                out.append(g)
+        return out
+
+    def tops_of(f, depth=0):
         top = f
         while top.kind == 'Closure' and top.parent in prog.fns:
             top = prog.fns[top.parent]
+        if top.kind == 'Closure' and depth < 3:
+            return [t_ for u in users_of(top.dp) for t_ in tops_of(u, depth + 1)]
+        return [top]
+    for f, top in [(f, top) for f in prog.fns.values() for top in tops_of(f)]:
         imp = top.impl
         if imp is None or not any(is_adt(imp['self'], o) for o in OWNERS):
             continue
